@@ -1923,6 +1923,8 @@ fn generate_autocoerce(
 					let address = reference.generate_storage_address(llvm)?;
 					generate_array_slice(address, element_type, *length, llvm)
 				}
+				// An array view is passed on as it is.
+				ValueType::Slice { .. } => expression.generate(llvm),
 				_ => unimplemented!(),
 			},
 			Expression::ArrayLiteral {
